@@ -576,7 +576,13 @@ namespace bloch::runtime {
         bool hasClasses = !program.classes.empty();
         if (hasClasses) {
             buildClassTable(program);
-            for (auto& kv : m_classTable) initStaticFields(kv.second.get());
+            // in name order, so that nothing depends on where a class is declared (or on the
+            // hash table's iteration order); an initialiser that reads a static field of a
+            // class not reached yet initialises that class first (staticSlot)
+            std::vector<std::string> classNames;
+            for (auto& kv : m_classTable) classNames.push_back(kv.first);
+            std::sort(classNames.begin(), classNames.end());
+            for (auto& cn : classNames) initStaticFields(m_classTable[cn].get());
             ensureGcThread();
         }
         for (auto& fn : program.functions) {
@@ -662,7 +668,7 @@ namespace bloch::runtime {
             }
             auto [field, owner] = findStaticFieldWithOwner(m_currentClassCtx, name);
             if (field && owner && field->offset < owner->staticStorage.size())
-                return owner->staticStorage[field->offset];
+                return staticSlot(owner, field);
         }
         auto clsIt = m_classTable.find(name);
         if (clsIt != m_classTable.end()) {
@@ -1327,6 +1333,15 @@ namespace bloch::runtime {
             subst[tmpl->typeParameters[i]->name] = args[i];
         }
         return instantiateGeneric(nt.get(), subst);
+    }
+
+    // A static field read before its class has been initialised (from another class's static
+    // initialiser) initialises that class first, so the value does not depend on the order
+    // in which classes happen to be initialised.
+    Value RuntimeEvaluator::staticSlot(RuntimeClass* owner, RuntimeField* field) {
+        if (owner->staticStorage[field->offset].type == Value::Type::Void)
+            initStaticFields(owner);
+        return owner->staticStorage[field->offset];
     }
 
     void RuntimeEvaluator::initStaticFields(RuntimeClass* cls) {
@@ -2590,7 +2605,7 @@ namespace bloch::runtime {
                 if (field && owner) {
                     size_t idx = field->offset;
                     if (idx < owner->staticStorage.size())
-                        return owner->staticStorage[idx];
+                        return staticSlot(owner, field);
                 } else if (method) {
                     Value v;
                     v.type = Value::Type::ClassRef;
@@ -2621,7 +2636,7 @@ namespace bloch::runtime {
                             ? findStaticFieldWithOwner(obj.objectValue->cls, memAcc->member)
                             : std::pair<RuntimeField*, RuntimeClass*>{nullptr, nullptr};
                     if (staticField && owner && staticField->offset < owner->staticStorage.size())
-                        return owner->staticStorage[staticField->offset];
+                        return staticSlot(owner, staticField);
                 }
             }
             return {};
